@@ -342,6 +342,9 @@ func init() {
 	extractors := []c20Extractor{
 		c20MkExtractor[*dtpb.Reference]("Reference"), c20MkExtractor[*dtpb.Identifier]("Identifier"), c20MkExtractor[*dtpb.Coding]("Coding"),
 		c20MkExtractor[*dtpb.Extension]("Extension"), c20MkExtractor[*dtpb.String]("String"), c20MkExtractor[*dtpb.DateTime]("DateTime"),
+		// datatypes whose short name is also the name of a backbone component somewhere in R4 (Dosage under
+		// MedicationKnowledge / MedicationAdministration) and a few more that occur below such components
+		c20MkExtractor[*dtpb.Dosage]("Dosage"), c20MkExtractor[*dtpb.Timing]("Timing"), c20MkExtractor[*dtpb.Quantity]("Quantity"), c20MkExtractor[*dtpb.CodeableConcept]("CodeableConcept"),
 	}
 	urls := []string{"http://u", "http://v", "http://w"}
 	core.Register(&core.Check{
